@@ -17,6 +17,7 @@ LENGTHS_KM = [0.0005, 0.003, 1.0, 3.0, 10.0, 20.0, 45.0, 50.0, 80.0, 100.0, 120.
 RAMAN_OP = {"temperature": 283,
             "raman_pumps": [{"power": 0.2, "frequency": 205e12, "propagation_direction": "counterprop"},
                             {"power": 0.206, "frequency": 201e12, "propagation_direction": "counterprop"}]}
+BANDS_CL = [{'f_min': 191.3e12, 'f_max': 196.0e12, 'spacing': 50e9}, {'f_min': 187.0e12, 'f_max': 190.0e12, 'spacing': 50e9}]
 SPLIT_RE = re.compile(r'_\((\d+)/(\d+)\)$')
 
 
@@ -211,7 +212,7 @@ def gen_roadm_params(rng):
 
 
 def gen_case(rng, tier, widen=False, raman_rate=0.08, raman_crash_rate=0.01, trx_src_rate=0.12, eol_zero=False,
-             lumped=False):
+             lumped=False, multiband=False):
     k = rng.choice([1, 1, 1, 2, 2, 3, 4, 5]) if tier == 'thorough' else rng.choice([1, 1, 1, 1, 2, 2, 3, 5])
     span = gen_span(rng, widen)
     if eol_zero:
@@ -233,6 +234,42 @@ def gen_case(rng, tier, widen=False, raman_rate=0.08, raman_crash_rate=0.01, trx
                    'line': gen_line(rng, 'ex0', tier, widen, raman=use_raman, src_is_trx=True)}
         raman = raman or use_raman
     roadms = {f'R{i}': gen_roadm_params(rng) for i in range(k + 1)}
+    roadm_bands = {}
+    eqpt = None
+    if multiband:
+        for i in range(k + 1):
+            if rng.random() < 0.15:
+                roadm_bands[f'R{i}'] = 1            # an explicit single design band
+    if multiband and not raman and not crash and trx_src is None and rng.random() < 0.3:
+        # C+L design bands on the hub and on some spokes (multiband equipment library); lines leaving a C+L ROADM carry
+        # no single-band user amplifier but sometimes a user Multiband_amplifier
+        eqpt = 'eqpt_config_multiband.json'
+        roadm_bands['R0'] = 2
+        for i in range(1, k + 1):
+            x = rng.random()
+            if x < 0.12:
+                roadm_bands[f'R{i}'] = 2
+            elif x < 0.45:
+                roadm_bands[f'R{i}'] = 1
+        for ch in chains:
+            if roadm_bands.get(ch['src'], 1) > 1:
+                line = []
+                for e in ch['line']:
+                    if e['type'] == 'Edfa':
+                        if rng.random() < 0.5:
+                            continue
+                        e = {'uid': e['uid'], 'type': 'Multiband_amplifier', 'amplifiers': []}
+                        if rng.random() < 0.4:
+                            e['type_variety'] = 'std_low_gain_multiband_bis'
+                    line.append(e)
+                ch['line'] = line or [gen_fiber(rng, f"{ch['src']}{ch['dst']} mb", max_km=120.0)]
+                if rng.random() < 0.7:
+                    # a line the current code can design: it starts and ends with a fibre (booster and preamp are inserted)
+                    if ch['line'][0]['type'] != 'Fiber':
+                        ch['line'].insert(0, gen_fiber(rng, f"{ch['src']}{ch['dst']} mb0", max_km=120.0))
+                    if ch['line'][-1]['type'] != 'Fiber':
+                        ch['line'].append(gen_fiber(rng, f"{ch['src']}{ch['dst']} mb9", max_km=120.0))
+        span['delta_power_range_db'] = span['delta_power_range_db']
     # per-degree targets on the hub for some egress lines (named after the element the degree will have AFTER design
     # is not known here: the key is resolved in build())
     per_degree = {}
@@ -245,7 +282,8 @@ def gen_case(rng, tier, widen=False, raman_rate=0.08, raman_crash_rate=0.01, trx
                 edfa_mod[name] = {'out_voa_auto': True}
     return {'k': k, 'chains': chains, 'trx_src': trx_src, 'roadms': roadms, 'per_degree': {str(a): b for a, b in
                                                                                           per_degree.items()},
-            'span': span, 'si': gen_si(rng), 'edfa_mod': edfa_mod, 'has_raman': raman or crash}
+            'span': span, 'si': gen_si(rng), 'edfa_mod': edfa_mod if not eqpt else {}, 'has_raman': raman or crash,
+            'roadm_bands': roadm_bands, 'eqpt': eqpt}
 
 
 # ---------------------------------------------------------------------------------------------------------------------
@@ -253,7 +291,11 @@ def gen_case(rng, tier, widen=False, raman_rate=0.08, raman_crash_rate=0.01, trx
 # ---------------------------------------------------------------------------------------------------------------------
 
 def equipment_for(case):
-    eq = nets.eqpt()
+    eq = nets.eqpt(case.get('eqpt') or 'eqpt_config.json')
+    if case.get('eqpt'):
+        # one default band: ROADMs without design_bands are single-band (the second SI entry of the multiband library would
+        # make every ROADM C+L by default)
+        eq['SI'].pop('lband', None)
     sp = eq['Span']['default']
     for k, v in case['span'].items():
         setattr(sp, k, copy.deepcopy(v))
@@ -276,6 +318,11 @@ def topology_json(case):
     for i in range(k + 1):
         els += [nets.trx(f'T{i}'), nets.roadm(f'R{i}', dict(case['roadms'].get(f'R{i}', {})) or None)]
         cxs += [nets.cx(f'T{i}', f'R{i}'), nets.cx(f'R{i}', f'T{i}')]
+    for e in els:
+        nb = (case.get('roadm_bands') or {}).get(e['uid'])
+        if e['type'] == 'Roadm' and nb:
+            # 2 = C+L, 1 = an explicit single C band (same as no design_bands at all)
+            e.setdefault('params', {})['design_bands'] = copy.deepcopy(BANDS_CL[:nb])
     if case.get('trx_src'):
         els.append(nets.trx('TX'))
         cxs.append(nets.cx('R0', 'TX'))
@@ -315,6 +362,8 @@ def kind_of(node):
         return 'fused'
     if isinstance(node, E.Edfa):
         return 'edfa'
+    if isinstance(node, E.Multiband_amplifier):
+        return 'multiband'
     if isinstance(node, E.Roadm):
         return 'roadm'
     if isinstance(node, E.Transceiver):
@@ -349,6 +398,10 @@ def record(node):
                 'effective_gain': fnum(node.effective_gain), 'delta_p': fnum(node.delta_p),
                 '_delta_p': fnum(node._delta_p), 'out_voa': fnum(node.out_voa), 'in_voa': fnum(node.in_voa),
                 'tilt_target': fnum(node.tilt_target), 'target_pch_out_dbm': fnum(node.target_pch_out_dbm)}
+    if k == 'multiband':
+        return {'kind': k, 'uid': node.uid, 'variety': getattr(node, 'type_variety', None) or '',
+                'amps': {b: {'variety': a.params.type_variety or '', 'effective_gain': fnum(a.effective_gain),
+                             'out_voa': fnum(a.out_voa), 'delta_p': fnum(a.delta_p)} for b, a in node.amplifiers.items()}}
     return {'kind': k, 'uid': node.uid}
 
 
@@ -425,6 +478,9 @@ def elem_model(rec):
         return {'kind': 'edfa', 'uid': rec['uid'], 'variety': rec['variety'], 'gain': ob(rec['gain_target']),
                 'delta_p': ob(rec['delta_p_user']), 'out_voa': ob(rec['out_voa_user']), 'in_voa': ob(rec['in_voa_user']),
                 'tilt': ob(rec['tilt_user'])}
+    if k == 'multiband':
+        return {'kind': 'edfa', 'uid': rec['uid'], 'variety': rec['variety'], 'gain': None, 'delta_p': None,
+                'out_voa': None, 'in_voa': None, 'tilt': None, 'multi': True}
     raise ValueError(k)
 
 
@@ -460,6 +516,7 @@ def shrink_candidates(case):
             for ch in c['chains']:
                 ch['src'], ch['dst'] = ren[ch['src']], ren[ch['dst']]
             c['roadms'] = {ren[r]: v for r, v in c['roadms'].items() if r in ren}
+            c['roadm_bands'] = {ren[r]: v for r, v in (c.get('roadm_bands') or {}).items() if r in ren}
             c['per_degree'] = {}
             c['k'] = k - 1
             yield c
@@ -476,6 +533,8 @@ def shrink_candidates(case):
                 yield c
     for ci, ch in enumerate(all_chains(case)):
         for ei, e in enumerate(ch['line']):
+            if e['type'] == 'Multiband_amplifier':
+                continue
             if e['type'] == 'Edfa' and (e.get('operational') or e.get('type_variety')):
                 c = copy.deepcopy(case)
                 all_chains(c)[ci]['line'][ei] = {'uid': e['uid'], 'type': 'Edfa'}
@@ -494,6 +553,10 @@ def shrink_candidates(case):
     if case.get('edfa_mod'):
         c = copy.deepcopy(case)
         c['edfa_mod'] = {}
+        yield c
+    for r in list(case.get('roadm_bands') or {}):
+        c = copy.deepcopy(case)
+        del c['roadm_bands'][r]
         yield c
     if case.get('per_degree'):
         c = copy.deepcopy(case)
